@@ -34,12 +34,15 @@ type GenOpts struct {
 	EmbedIn          bool // parameter objects that declare a dependency through an embedded field (static constructors)
 	OptionalBias     bool // half of the dependencies on registered services are optional
 	NamedVoid        bool // initializer functions registered with a name (resolvable as a keyed empty struct)
+	SliceSvc         bool // services whose own type is the unnamed slice type []I0 (plain or named), next to groups over I0
+	Ghosts           bool // registrations that are added and removed again while the collection is assembled
+	SigTwins         bool // a second registration with the very signature of another one (shared analysis), other lifetime, other group/name
 	PreBuild         bool // the collection is built (and the provider used and closed) once before all registrations are in
 }
 
 func FullOpts() GenOpts {
 	return GenOpts{MinRegs: 1, MaxRegs: 9, Multi: true, Out: true, OutGroupFields: true, Instance: true, Void: true, As: true, MultiAs: true,
-		Groups: true, Keys: true, MultiGroup: true, OptionalMissing: true, Builtins: true, Err: true, Iface: true, MaxDeps: 3, NilOuts: true, AltImpl: true, Drops: true, PreBuild: true, NamedVoid: true, VoidAnyLife: true, EmbedIn: true}
+		Groups: true, Keys: true, MultiGroup: true, OptionalMissing: true, Builtins: true, Err: true, Iface: true, MaxDeps: 3, NilOuts: true, AltImpl: true, Drops: true, PreBuild: true, NamedVoid: true, VoidAnyLife: true, EmbedIn: true, SliceSvc: true, Ghosts: true, SigTwins: true}
 }
 
 // NeverType is a concrete type id that generated configurations never provide.
@@ -71,6 +74,17 @@ var groupPool = []string{"g", "h"}
 func (g *genState) freshIdent(t *rapid.T, allowGroup bool) (Ident, int, bool) {
 	for try := 0; try < 20; try++ {
 		var ty, impl int
+		if g.o.SliceSvc && rapid.IntRange(0, 11).Draw(t, "slicesvc") == 0 {
+			// a service of type []I0: never grouped; the carrier is a non-disposable pointer type
+			id := Ident{T: TSl}
+			if g.o.Keys {
+				id.Key = rapid.SampledFrom(keyPool).Draw(t, "slkey")
+			}
+			if g.used[id] {
+				continue
+			}
+			return id, NumD + rapid.IntRange(0, 3).Draw(t, "slcarrier"), true
+		}
 		if g.o.Iface && rapid.IntRange(0, 4).Draw(t, "iface") == 0 {
 			ty = NumConcrete + rapid.IntRange(0, NumIface-1).Draw(t, "it")
 			impl = g.concrete(t)
@@ -175,7 +189,9 @@ func (g *genState) genDeps(t *rapid.T, life int) (deps []DepSpec, needIn bool) {
 			g.closedGrp[gk] = true
 			gd := DepSpec{T: gk.T, Group: gk.Group}
 			if rapid.IntRange(0, 5).Draw(t, "groupAndName") == 0 {
-				gd.Key = "alsonamed" // a group field that also carries a name tag: filled from the group, the name is ignored
+				// a group field that also carries a name tag: filled from the group, the name is ignored -
+				// also when a service of the field's own slice type is registered under that very name
+				gd.Key = rapid.SampledFrom([]string{"alsonamed", "a", "b"}).Draw(t, "alsoName")
 			}
 			deps = append(deps, gd)
 		case k == 7: // built-in
@@ -279,7 +295,7 @@ func GenConfig(t *rapid.T, o GenOpts) *Config {
 					ok = false
 					break
 				}
-				if r.Form == FormInstance && id.T != impl {
+				if r.Form == FormInstance && id.T != impl && !IsSliceSvc(id.T) {
 					// an instance value is registered under its own concrete type
 					id.T = impl
 					if id.Group == "" && g.used[id] {
@@ -413,6 +429,11 @@ func GenConfig(t *rapid.T, o GenOpts) *Config {
 		}
 		regs = append(regs, r)
 	}
+	if o.SigTwins && len(regs) > 0 && rapid.IntRange(0, 3).Draw(t, "sigtwin") == 0 {
+		if tw, ok := g.genSigTwin(t, regs); ok {
+			regs = append(regs, tw)
+		}
+	}
 	if o.EmbedIn {
 		genEmbeds(t, regs)
 	}
@@ -447,7 +468,122 @@ func GenConfig(t *rapid.T, o GenOpts) *Config {
 	if o.PreBuild && len(cfg.Regs) >= 2 && rapid.IntRange(0, 3).Draw(t, "prebuild") == 0 {
 		cfg.PreBuild = rapid.IntRange(1, len(cfg.Regs)-1).Draw(t, "prebuildN")
 	}
+	if o.Ghosts && len(cfg.Regs) >= 2 && rapid.IntRange(0, 2).Draw(t, "ghosts") == 0 {
+		ng := rapid.IntRange(1, 2).Draw(t, "nghosts")
+		for k := 0; k < ng; k++ {
+			gh := Ghost{T: rapid.IntRange(0, NeverType-1).Draw(t, "ghostT"), Key: fmt.Sprintf("ghost%d", k), Life: rapid.IntRange(0, 2).Draw(t, "ghostLife")}
+			if k == 0 && rapid.IntRange(0, 3).Draw(t, "ghostPlain") == 0 {
+				gh.T, gh.Key = NeverType, "" // an un-keyed registration of the type nothing else provides
+			}
+			gh.At = rapid.IntRange(0, len(cfg.Regs)-1).Draw(t, "ghostAt")
+			gh.Span = rapid.IntRange(0, len(cfg.Regs)-1-gh.At).Draw(t, "ghostSpan")
+			cfg.Ghosts = append(cfg.Ghosts, gh)
+		}
+	}
 	return cfg
+}
+
+// genSigTwin adds a registration whose function value has exactly the
+// signature of an existing one (for reflect.MakeFunc values that also means the
+// same code pointer, hence one shared analysis record inside godi) but another
+// lifetime and another group or name. Nothing depends on the twin.
+func (g *genState) genSigTwin(t *rapid.T, regs []Reg) (Reg, bool) {
+	var cands []int
+	for i, r := range regs {
+		hasNil := false
+		for _, os := range r.Outs {
+			hasNil = hasNil || os.Nil
+		}
+		if (r.Form == FormPlain || r.Form == FormMulti) && len(r.As) == 0 && len(r.Dropped) == 0 && !hasNil && !IsSliceSvc(r.Outs[0].T) {
+			cands = append(cands, i)
+		}
+	}
+	if len(cands) == 0 {
+		return Reg{}, false
+	}
+	src := regs[rapid.SampledFrom(cands).Draw(t, "twinOf")]
+	nextID := 0
+	for _, r := range regs {
+		if r.ID >= nextID {
+			nextID = r.ID + 1
+		}
+	}
+	tw := Reg{ID: nextID, Form: src.Form, HasErr: src.HasErr, UseIn: src.UseIn, IsTwin: true, TwinOf: src.ID,
+		Outs: append([]OutSpec(nil), src.Outs...), Deps: append([]DepSpec(nil), src.Deps...)}
+	// lifetimes the dependencies allow: anything long-lived must not depend on a scoped service
+	scopedDep := false
+	for _, d := range tw.Deps {
+		if d.Builtin != 0 || d.Ignored {
+			continue
+		}
+		if d.Group != "" {
+			for _, l := range g.groups[groupKey{d.T, d.Group}] {
+				scopedDep = scopedDep || l == Scoped
+			}
+			continue
+		}
+		for _, a := range g.avail {
+			if a.id.T == d.T && a.id.Key == d.Key && a.life == Scoped {
+				scopedDep = true
+			}
+		}
+	}
+	var lifes []int
+	for _, l := range []int{Singleton, Scoped, Transient} {
+		if l != src.Life && (l == Scoped || !scopedDep) {
+			lifes = append(lifes, l)
+		}
+	}
+	if len(lifes) == 0 {
+		return Reg{}, false
+	}
+	tw.Life = rapid.SampledFrom(lifes).Draw(t, "twinLife")
+	// another group (groups accumulate members) or, for a single output, another name
+	for _, grp := range rapid.Permutation(append([]string(nil), groupPool...)).Draw(t, "twinGroups") {
+		ok := true
+		for _, os := range tw.Outs {
+			if g.closedGrp[groupKey{os.T, grp}] {
+				ok = false
+			}
+		}
+		// a member of a group must not consume that very group
+		for _, d := range tw.Deps {
+			for _, os := range tw.Outs {
+				if d.Group == grp && d.T == os.T {
+					ok = false
+				}
+			}
+		}
+		if ok && (grp != src.Group || rapid.Bool().Draw(t, "twinSameGroup")) {
+			tw.Group = grp
+			break
+		}
+	}
+	if tw.Group == "" {
+		if tw.Form != FormPlain {
+			return Reg{}, false
+		}
+		for _, k := range []string{"b", "a", "tw"} {
+			if id := (Ident{T: tw.Outs[0].T, Key: k}); !g.used[id] && k != src.Name {
+				tw.Name = k
+				break
+			}
+		}
+		if tw.Name == "" {
+			return Reg{}, false
+		}
+	}
+	for i, os := range tw.Outs {
+		if os.Nil {
+			continue
+		}
+		id := Ident{T: os.T, Group: tw.Group}
+		if i == 0 {
+			id.Key = tw.Name
+		}
+		g.take(id, tw.Life, tw.ID)
+	}
+	return tw, true
 }
 
 func (g *genState) genDepsExcludingOwnGroups(t *rapid.T, r Reg) ([]DepSpec, bool) {
@@ -624,6 +760,8 @@ func genDrops(t *rapid.T, regs []Reg) []Reg {
 				impl := id.T
 				if IsIface(impl) {
 					impl = rapid.IntRange(0, NumD-1).Draw(t, "reAddImpl")
+				} else if IsSliceSvc(impl) {
+					impl = NumD + rapid.IntRange(0, 3).Draw(t, "reAddCarrier")
 				}
 				again = append(again, Reg{ID: nextID, Life: rapid.IntRange(0, 2).Draw(t, "reAddLife"), Form: FormPlain,
 					Outs: []OutSpec{{T: id.T, Impl: impl}}, Name: id.Key, HasErr: rapid.Bool().Draw(t, "reAddErr"), After: []int{r.ID}})
